@@ -14,7 +14,6 @@ use crate::{
     typ::*,
 };
 
-use malachite::base::num::conversion::traits::ToSci;
 use once_cell::sync::Lazy;
 use pretty::docs;
 pub use pretty::{DocAllocator, DocBuilder, Pretty};
@@ -386,7 +385,23 @@ impl Allocator {
     ) -> DocBuilder<'a, Self> {
         let multiline = string_style == StringRenderStyle::Multiline
             && contains_newline(chunks)
-            && !contains_carriage_return(chunks);
+            && !contains_carriage_return(chunks)
+            && {
+                // Same check as for the AST printer: the parser's indentation stripping must
+                // give back these chunks (runtime chunks are stored in reverse order).
+                use crate::ast::{Ast, StringChunk};
+
+                let skeleton: Vec<StringChunk<Ast<'static>>> = chunks
+                    .iter()
+                    .rev()
+                    .map(|chunk| match chunk {
+                        StrChunk::Literal(s) => StringChunk::Literal(s.clone()),
+                        StrChunk::Expr(_, indent) => StringChunk::Expr(Ast::default(), *indent),
+                    })
+                    .collect();
+
+                crate::ast::pretty::multiline_roundtrips(&skeleton)
+            };
 
         let nb_perc = if multiline {
             chunks
@@ -541,7 +556,12 @@ impl Allocator {
                 MergePriority::Bottom => docs![self, self.line(), "| default"],
                 MergePriority::Neutral => self.nil(),
                 MergePriority::Numeral(p) =>
-                    docs![self, self.line(), "| priority ", p.to_sci().to_string()],
+                    docs![
+                        self,
+                        self.line(),
+                        "| priority ",
+                        crate::ast::pretty::number_literal(p)
+                    ],
                 MergePriority::Top => docs![self, self.line(), "| force"],
             }
         ]
@@ -752,7 +772,9 @@ impl<'a> Pretty<'a, Allocator> for &NickelValue {
         match self.content_ref() {
             ValueContentRef::Null => allocator.text("null"),
             ValueContentRef::Bool(b) => allocator.as_string(b),
-            ValueContentRef::Number(n) => allocator.as_string(n.to_sci()),
+            // Exact for numbers with a finite decimal expansion (all number literals are),
+            // rounded to 16 significant digits otherwise.
+            ValueContentRef::Number(n) => allocator.as_string(crate::ast::pretty::number_literal(n)),
             ValueContentRef::Array(container) =>
             // NOTE: the Array attributes are ignored here. They contain only
             // information that has no surface syntax.
